@@ -69,6 +69,15 @@ def aug_or(o, d):
     o.x |= d
 
 
+def read_y(o):
+    r = o.y
+    return r
+
+
+def aug_x_by_y(o):
+    o.x += read_y(o)
+
+
 import operator as _op
 AUG_OPS = {"+=": (do_aug, _op.add), "-=": (aug_sub, _op.sub), "*=": (aug_mul, _op.mul), "/=": (aug_truediv, _op.truediv),
            "//=": (aug_floordiv, _op.floordiv), "%=": (aug_mod, _op.mod), "**=": (aug_pow, _op.pow), ">>=": (aug_rshift, _op.rshift),
